@@ -376,8 +376,13 @@ fn build_p2p<I: HInp, P: InputPredictor<I> + 'static>(
         .with_input_delay(sc.peers[p].delay as usize)
         .with_sparse_saving_mode(sc.sparse)
         .with_fps(sc.fps as usize)?
-        .with_disconnect_timeout(Duration::from_millis(sc.timeout_ms as u64))
-        .with_disconnect_notify_delay(Duration::from_millis(sc.notify_ms as u64));
+        ;
+    // the two setters are independent: half of the scenarios call them in the other order
+    b = if sc.seed & 0x1000 == 0 {
+        b.with_disconnect_timeout(Duration::from_millis(sc.timeout_ms as u64)).with_disconnect_notify_delay(Duration::from_millis(sc.notify_ms as u64))
+    } else {
+        b.with_disconnect_notify_delay(Duration::from_millis(sc.notify_ms as u64)).with_disconnect_timeout(Duration::from_millis(sc.timeout_ms as u64))
+    };
     if sc.desync > 0 {
         b = b.with_desync_detection_mode(DesyncDetection::On { interval: sc.desync as u32 });
     }
@@ -407,11 +412,13 @@ fn build_spec<I: HInp, P: InputPredictor<I> + 'static>(
     let b = SessionBuilder::<Cfg<I, P>>::new()
         .with_num_players(sc.num_players())?
         .with_max_prediction_window(s.window as usize)
-        .with_fps(sc.fps as usize)?
-        .with_disconnect_timeout(Duration::from_millis(sc.timeout_ms as u64))
-        .with_disconnect_notify_delay(Duration::from_millis(sc.notify_ms as u64))
-        .with_max_frames_behind(s.max_behind as usize)?
-        .with_catchup_speed(s.catchup as usize)?;
+        .with_fps(sc.fps as usize)?;
+    let b = if sc.seed & 0x2000 == 0 {
+        b.with_disconnect_timeout(Duration::from_millis(sc.timeout_ms as u64)).with_disconnect_notify_delay(Duration::from_millis(sc.notify_ms as u64))
+    } else {
+        b.with_disconnect_notify_delay(Duration::from_millis(sc.notify_ms as u64)).with_disconnect_timeout(Duration::from_millis(sc.timeout_ms as u64))
+    };
+    let b = b.with_max_frames_behind(s.max_behind as usize)?.with_catchup_speed(s.catchup as usize)?;
     Ok(b.start_spectator_session(peer_addr(s.host as usize), SimSocket { me: spec_addr(i), net: net.clone() }))
 }
 
